@@ -87,7 +87,7 @@ Definition option_eqb {A} (eqb : A -> A -> bool) (a b : option A) : bool :=
    next model state and a kind (0 = agrees, 1 = model differs from the implementation but the observation
    satisfies the property, 2 = the observation violates the property). The case code is
    step_index * 4 + kind of the first non-zero step (0 = whole case fine). *)
-Fixpoint scan {S X} (f : S -> X -> S * nat) (s : S) (xs : list X) (i : nat) : nat :=
+Fixpoint scan {St X} (f : St -> X -> St * nat) (s : St) (xs : list X) (i : nat) : nat :=
   match xs with
   | [] => 0
   | x :: t => let '(s', k) := f s x in
